@@ -28,7 +28,7 @@ Qed.
 Lemma release_has_caller i now r idt act : token_endpoint i now r = Release idt act ->
   exists id, authenticated_client r = Some id.
 Proof.
-  unfold token_endpoint, authenticated_client.
+  unfold token_endpoint, token_endpoint_gen, authenticated_client. cbn [andb negb]. rewrite !andb_true_r.
   destruct (tr_post r); cbn [negb]; [|discriminate].
   destruct (bs_eqb (tr_grant r) gt_authcode); cbn [negb]; [|discriminate].
   destruct (nonempty (tr_redirect r)); cbn [negb]; [|discriminate].
@@ -60,7 +60,7 @@ Qed.
 Lemma header_decides i now r fc fs : tr_basic r <> None ->
   token_endpoint i now (with_form r fc fs) = token_endpoint i now r.
 Proof.
-  intro H. unfold token_endpoint, caller. cbn [with_form tr_post tr_grant tr_redirect tr_code tr_verifier tr_vhash tr_basic].
+  intro H. unfold token_endpoint, token_endpoint_gen, caller. cbn [with_form tr_post tr_grant tr_redirect tr_code tr_verifier tr_vhash tr_basic].
   destruct (tr_basic r) as [[a p]|]; [reflexivity|congruence].
 Qed.
 
